@@ -57,7 +57,7 @@ pub mod rust_log_ref_finder
         lazy_static! {
             static ref RUST_COMMENT_PATTERN: Regex = Regex::new(r"\/\/(.+)|\/\*(.+)\*\/").unwrap();
             static ref REF_VALUE_PATTERN: Regex =
-                Regex::new(r"^([0-9]+)(?:\s|/\*(?s:.*?)\*/|//[^\n]*(?:\n|$))*$").unwrap();
+                Regex::new(r"^([0-9]+)(?:[\t\n\x0B\x0C\r \u{85}\u{200E}\u{200F}\u{2028}\u{2029}]|/\*(?s:.*?)\*/|//[^\n]*(?:\n|$))*$").unwrap();
         }
 
         let mut result = Vec::new();
